@@ -459,7 +459,7 @@ pub fn pipeline(p: &Program, mode: u8) -> (Stage, Option<ProgramRegistryInfo>) {
 // ---------------------------------------------------------------------------------------------
 // C15: independent checker.
 
-type TypeMap = BTreeMap<u64, ConcreteTypeId>;
+pub type TypeMap = BTreeMap<u64, ConcreteTypeId>;
 
 #[derive(Debug)]
 pub struct CheckError {
@@ -527,6 +527,11 @@ pub struct CheckStats {
 
 /// Independent forward data-flow check of typing and exact-once use.
 pub fn independent_check(p: &Program, info: &ProgramRegistryInfo, stats: &mut CheckStats) -> Result<(), CheckError> {
+    independent_check_states(p, info, stats).map(|_| ())
+}
+
+/// As [independent_check], also returning the variable -> type map in front of every statement.
+pub fn independent_check_states(p: &Program, info: &ProgramRegistryInfo, stats: &mut CheckStats) -> Result<Vec<Option<TypeMap>>, CheckError> {
     let registry = &info.registry;
     let n = p.statements.len();
     let mut owner: Vec<Option<usize>> = vec![None; n];
@@ -684,7 +689,93 @@ pub fn independent_check(p: &Program, info: &ProgramRegistryInfo, stats: &mut Ch
         }
     }
     stats.unreachable_statements += states.iter().filter(|s| s.is_none()).count();
-    Ok(())
+    Ok(states)
+}
+
+/// Inserts `stmt` in front of statement `idx`. Jumps to `idx` land on the inserted statement if
+/// `on_all_paths`, otherwise they skip it (it then sits on the fall-through path only).
+pub fn insert_statement(p: &mut Program, idx: usize, stmt: Statement, on_all_paths: bool) {
+    let shift = |t: &mut StatementIdx| {
+        if t.0 > idx || (t.0 == idx && !on_all_paths) {
+            t.0 += 1;
+        }
+    };
+    for s in p.statements.iter_mut() {
+        if let Statement::Invocation(inv) = s {
+            for b in inv.branches.iter_mut() {
+                if let BranchTarget::Statement(t) = &mut b.target {
+                    shift(t);
+                }
+            }
+        }
+    }
+    for f in p.funcs.iter_mut() {
+        if f.entry_point.0 > idx || (f.entry_point.0 == idx && !on_all_paths) {
+            f.entry_point.0 += 1;
+        }
+    }
+    p.statements.insert(idx, stmt);
+}
+
+/// Finds (or declares) the libfunc `generic<ty>`.
+fn libfunc_for_type(p: &mut Program, generic: &str, ty: &ConcreteTypeId) -> ConcreteLibfuncId {
+    if let Some(d) = p.libfunc_declarations.iter().find(|d| d.long_id.generic_id.0 == generic && d.long_id.generic_args == vec![GenericArg::Type(ty.clone())]) {
+        return d.id.clone();
+    }
+    let id = ConcreteLibfuncId::from_string(format!("{generic}<{ty}>"));
+    p.libfunc_declarations.push(cairo_lang_sierra::program::LibfuncDeclaration {
+        id: id.clone(),
+        long_id: cairo_lang_sierra::program::ConcreteLibfuncLongId { generic_id: generic.into(), generic_args: vec![GenericArg::Type(ty.clone())] },
+    });
+    id
+}
+
+pub const TYPED_MUTATION_KINDS: &[&str] = &["typed-insert-drop", "typed-insert-dup", "typed-insert-store-temp-rename", "typed-swap-same-type-args"];
+
+/// Type-aware mutations: they keep every statement well-typed and break only linearity / merge
+/// agreement - the checks C15 is about. Needs the live-variable types of the (valid) base program.
+pub fn mutate_typed(p: &mut Program, states: &[Option<TypeMap>], rng: &mut Rng) -> &'static str {
+    let cands: Vec<usize> = states.iter().enumerate().filter(|(_, s)| s.as_ref().is_some_and(|m| !m.is_empty())).map(|(i, _)| i).collect();
+    if cands.is_empty() {
+        return "noop";
+    }
+    let idx = *rng.pick(&cands);
+    let st = states[idx].as_ref().unwrap();
+    let vars: Vec<(&u64, &ConcreteTypeId)> = st.iter().collect();
+    let (var, ty) = *rng.pick(&vars);
+    let (var, ty) = (VarId::new(*var), ty.clone());
+    let on_all = rng.bool();
+    let fresh = VarId::new(1_000_000 + rng.below(1000) as u64);
+    match rng.below(4) {
+        0 => {
+            let lf = libfunc_for_type(p, "drop", &ty);
+            insert_statement(p, idx, Statement::Invocation(Invocation { libfunc_id: lf, args: vec![var], branches: vec![BranchInfo { target: BranchTarget::Fallthrough, results: vec![] }] }), on_all);
+            "typed-insert-drop"
+        }
+        1 => {
+            let lf = libfunc_for_type(p, "dup", &ty);
+            insert_statement(p, idx, Statement::Invocation(Invocation { libfunc_id: lf, args: vec![var.clone()], branches: vec![BranchInfo { target: BranchTarget::Fallthrough, results: vec![var, fresh] }] }), on_all);
+            "typed-insert-dup"
+        }
+        2 => {
+            // `store_temp<T>([x]) -> ([fresh])`: x disappears, a new variable appears.
+            let lf = libfunc_for_type(p, "store_temp", &ty);
+            insert_statement(p, idx, Statement::Invocation(Invocation { libfunc_id: lf, args: vec![var], branches: vec![BranchInfo { target: BranchTarget::Fallthrough, results: vec![fresh] }] }), on_all);
+            "typed-insert-store-temp-rename"
+        }
+        _ => {
+            // Use one variable twice where two variables of the same type are expected.
+            let same: Vec<u64> = st.iter().filter(|(k, t)| **t == ty && **k != var.id).map(|(k, _)| *k).collect();
+            if let (Some(other), Some(Statement::Invocation(inv))) = ((!same.is_empty()).then(|| *rng.pick(&same)), p.statements.get_mut(idx)) {
+                for a in inv.args.iter_mut() {
+                    if a.id == other {
+                        *a = var.clone();
+                    }
+                }
+            }
+            "typed-swap-same-type-args"
+        }
+    }
 }
 
 // ---------------------------------------------------------------------------------------------
@@ -706,6 +797,18 @@ pub fn build_mutant(corpus: &SierraCorpus, seed: u64, idx: u64) -> (usize, Vec<&
     let mut rng = Rng::derive(seed, &[14, idx]);
     let bi = rng.below(corpus.programs.len());
     let mut p = corpus.programs[bi].1.clone();
+    if idx % 3 == 2 {
+        // Type-aware mutation of a program the independent checker understands.
+        let typed = guarded(|| {
+            let info = ProgramRegistryInfo::new(&p).ok()?;
+            let mut st = CheckStats::default();
+            independent_check_states(&p, &info, &mut st).ok()
+        });
+        if let Ok(Some(states)) = typed {
+            let k = mutate_typed(&mut p, &states, &mut rng);
+            return (bi, vec![k], p);
+        }
+    }
     let k = match rng.below(10) {
         0..=5 => 1,
         6..=7 => 2,
